@@ -197,13 +197,13 @@ def hexs(b):
 def unhexs(s):
     return b"" if s == "-" else bytes.fromhex(s)
 
-def run_lines(binary, stage, lines, shards=NPROC, timeout=3000, env=None, cwd=None):
+def run_lines(binary, stage, lines, shards=NPROC, timeout=600, env=None, cwd=None):
     """feed `lines` (list of str) to `binary stage` over up to `shards` processes; returns list of output lines
     (one per input line).  A shard that dies yields 'CRASH' for its missing lines."""
     n = len(lines)
     if n == 0:
         return []
-    k = max(1, min(shards, (n + 49) // 50))
+    k = max(1, min(shards, (n + 49) // 50)) if shards <= NPROC else min(n, shards)
     chunks = [lines[i::k] for i in range(k)]
     procs = []
     for ch in chunks:
@@ -227,7 +227,8 @@ def run_lines(binary, stage, lines, shards=NPROC, timeout=3000, env=None, cwd=No
         o = outs[i]
         if o and o[-1] == "": o = o[:-1]
         for j, idx in enumerate(range(i, n, k)):
-            res[idx] = o[j] if j < len(o) else "CRASH"
+            # the first line without an answer is where the process died or hung
+            res[idx] = o[j] if j < len(o) else ("CRASH" if j == len(o) else "SKIPPED")
     return res
 
 def run_impl(stage, lines, **kw):
